@@ -2,6 +2,7 @@ import ParryModel.Proto
 import ParryModel.C07.Link
 import ParryModel.C08.Driver
 import ParryModel.C07.Driver2
+import ParryModel.C07.Driver3
 /-!
 C07 protocol handler.  `bf_point`: a QBVH history (as in C08 `hist`) followed by a point; the real
 `Qbvh::traverse_best_first` runs with a point-distance visitor (lane weight = squared distance to the lane box, leaf
@@ -185,7 +186,7 @@ def handler (fn : String) : Option Handler :=
                 else s!"fail cost-not-minimal got={C} min={m}"
           | "PANIC" :: _ => "fail panic"
           | _ => "fail unparsable-output" }
-  | _ => handler2 fn
+  | _ => (handler2 fn).orElse fun _ => handler3 fn
 where
   pfloatTokC (t : String) : Option Float := if t = "nan" then some (0.0 / 0.0) else FloatIO.ofHex? t
 
